@@ -557,7 +557,7 @@ func opName(op string) string {
 
 func weightOf(cfg CacheCfg, v int) uint64 {
 	if cfg.MaxWeight > 0 {
-		return uint64(valWeight(v))
+		return uint64(valWeight(v)) << cfg.WeightShift
 	}
 	return 1
 }
